@@ -12,6 +12,7 @@ import (
 	"strings"
 
 	"github.com/hedzr/logg/slog"
+	errorsv3 "gopkg.in/hedzr/errors.v3"
 
 	"verifharness/gen"
 	"verifharness/mon"
@@ -49,6 +50,12 @@ type c14entry struct {
 }
 
 const cm = "caller-probe"
+
+// stackErr carries a stack trace (gopkg.in/hedzr/errors.v3): its origin is printed in the error's own trace
+// and must never be taken for the caller of the record.
+var stackErr = makeStackErr()
+
+func makeStackErr() error { return errorsv3.New("error created elsewhere") }
 
 // NOTE: keep every function literal on ONE line: the expected line is the line of here().
 func c14entries() []c14entry {
@@ -107,6 +114,11 @@ func c14entries() []c14entry {
 		{"pkg.FailContext", "pkg", func(_ slog.Logger, _ *stdslog.Logger, _ *stdlog.Logger, c context.Context) []site { s := here(); slog.FailContext(c, cm, "a", 1); return s }},
 		{"pkg.PanicContext", "pkg", func(_ slog.Logger, _ *stdslog.Logger, _ *stdlog.Logger, c context.Context) []site { s := here(); slog.PanicContext(c, cm, "a", 1); return s }},
 		{"pkg.FatalContext", "pkg", func(_ slog.Logger, _ *stdslog.Logger, _ *stdlog.Logger, c context.Context) []site { s := here(); slog.FatalContext(c, cm, "a", 1); return s }},
+		{"Info+stackerr", "native", func(l slog.Logger, _ *stdslog.Logger, _ *stdlog.Logger, c context.Context) []site { s := here(); l.Info(cm, "err", stackErr, "a", 1); return s }},
+		{"ErrorContext+stackerr", "native", func(l slog.Logger, _ *stdslog.Logger, _ *stdlog.Logger, c context.Context) []site { s := here(); l.ErrorContext(c, cm, "err", stackErr); return s }},
+		{"LogAttrs+stackerr", "native", func(l slog.Logger, _ *stdslog.Logger, _ *stdlog.Logger, c context.Context) []site { s := here(); l.LogAttrs(c, slog.WarnLevel, cm, slog.NewAttr("err", stackErr)); return s }},
+		{"pkg.Warn+stackerr", "pkg", func(_ slog.Logger, _ *stdslog.Logger, _ *stdlog.Logger, c context.Context) []site { s := here(); slog.Warn(cm, "err", stackErr); return s }},
+		{"slog.Logger.Error+stackerr", "slogadapter", func(_ slog.Logger, sl *stdslog.Logger, _ *stdlog.Logger, c context.Context) []site { s := here(); sl.Error(cm, "err", stackErr); return s }},
 		{"slog.Logger.Info", "slogadapter", func(_ slog.Logger, sl *stdslog.Logger, _ *stdlog.Logger, c context.Context) []site { s := here(); sl.Info(cm, "a", 1); return s }},
 		{"slog.Logger.WarnContext", "slogadapter", func(_ slog.Logger, sl *stdslog.Logger, _ *stdlog.Logger, c context.Context) []site { s := here(); sl.WarnContext(c, cm, "a", 1); return s }},
 		{"slog.Logger.Log", "slogadapter", func(_ slog.Logger, sl *stdslog.Logger, _ *stdlog.Logger, c context.Context) []site { s := here(); sl.Log(c, stdslog.LevelError, cm, "a", 1); return s }},
@@ -255,6 +267,9 @@ func c14sites(c *Ctx) {
 				via = "WithSkip"
 				ch := target.WithSkip(cl.skip)
 				ch.SetWriter(w).SetErrorWriter(w)
+				// another child with another skip count is derived from the same parent before ch is used
+				other := target.WithSkip(cl.skip + 1 + idx%2)
+				other.SetWriter(w).SetErrorWriter(w)
 				target = ch
 			}
 		}
@@ -274,15 +289,16 @@ func c14sites(c *Ctx) {
 			target.SetLevel(slog.InfoLevel)
 			bl = slog.NewLogLogger(target, slog.InfoLevel) // bridge severity == logger level
 		}
-		log.Reset()
 		ctx := context.Background()
 		var stack []site
+		for round := 0; round < 2; round++ { // twice from the same call site: a second record must be attributed like the first
+		log.Reset()
 		if idx%2 == 0 {
 			stack = chain(cl.skip, cl.noinline, func() []site { return e.call(target, sl, bl, ctx) })
 		} else {
 			stack = nest(cl.skip, cl.noinline, func() []site { return e.call(target, sl, bl, ctx) })
 		}
-		desc := map[string]any{"entry": e.name, "format": cl.f.String(), "skip": cl.skip, "skip_via": via, "logger": cl.kind, "wrappers_noinline": cl.noinline, "wrapper_style": map[bool]string{true: "direct chain", false: "closures"}[idx%2 == 0]}
+		desc := map[string]any{"round": round, "entry": e.name, "format": cl.f.String(), "skip": cl.skip, "skip_via": via, "logger": cl.kind, "wrappers_noinline": cl.noinline, "wrapper_style": map[bool]string{true: "direct chain", false: "closures"}[idx%2 == 0]}
 		evs := log.Writes("")
 		c.R.Add("calls", 1)
 		sig := func(clause string) string {
@@ -321,11 +337,14 @@ func c14sites(c *Ctx) {
 			return
 		}
 		c.R.Add("attributions_confirmed", 1)
-		c.R.Distinct("entry_points", e.name)
-		c.R.NonTrivial(fmt.Sprint(desc), c.X("build", ""), c.Testing)
-		if c.R.WantSample() && cl.skip > 0 {
-			c.R.Sample(idx, desc, map[string]any{"reported": d.Caller, "expected": want})
+		if round == 1 {
+			c.R.Distinct("entry_points", e.name)
+			c.R.NonTrivial(fmt.Sprint(desc), c.X("build", ""), c.Testing)
+			if c.R.WantSample() && cl.skip > 0 {
+				c.R.Sample(idx, desc, map[string]any{"reported": d.Caller, "expected": want})
+			}
 		}
+		} // round
 	})
 }
 
